@@ -35,6 +35,15 @@ CLAIMS = {
  'C07': ("Thin structural claim: the negotiation helpers can only return entries of the (descending, constant) version table, the initialize path never 2026-07-28; every transport implementing the version filter definitely refuses >= 2026-07-28 unless it is a stateless streamable transport (three-valued evaluation of its returns); the server stores the transport-filtered list before returning the session and discover advertises it; the client returns a session only after discover succeeded (non-empty, >= 2026-07-28) or after finding the initialize result's version in the table, closes the session on every failed handshake step, falls back to a legacy constant with a bounded discover loop; stateful HTTP rejects new-protocol requests with -32022 listing legacy versions; the shared table never escapes un-cloned. "
          "Not decided: the configuration matrix itself (which cell negotiates what; that a connected session can list and call tools).",
          "return-value range analysis over constants and guards, three-valued CFG evaluation, escape/alias rule for the shared table", "§3 C07"),
+ 'C08': ("Decides the index/lock discipline behind resumption: in Write the store append and the delivery happen in one critical section of the stream lock, append first, event id = lastIdx+1 computed there; lastIdx has exactly four writer roles (init -1, +1 per SSE event immediately before writeEvent and never in JSON mode, +1 with the stored priming event before publication, re-based on resume to a cursor advanced once per replayed event); replay and re-attachment are one critical section (no unlock between), conflict test inside; all stream delivery state is accessed under the stream lock or pre-publication; id format/parse agree and stream ids cannot contain the separator; associations/streams are dropped exactly when complete. "
+         "Not decided: the exactly-once/in-order statement over all cut points and resume sequences; behaviour when the store itself fails.",
+         "interprocedural must-locksets with requires-lock inference, field-writer role classification, dominance / adjacency rules on the CFG, codec constant agreement", "§3 C08"),
+ 'C10': ("Decides that no code path can attach or select a foreign writer: stream.w is only nil or the attaching function's own ResponseWriter parameter; Write's stream selection and its related-request id have closed, guarded sets of sources (response id → requestStreams; handler-context id; JSON-mode override; listen/standalone only for unrelated messages); unknown stream → ErrRejected; idContextKey set only by ServerSession.handle from req.ID; duplicate scan + registration in one c.mu section dominating publication; no package-level reference variable written after init; routing tables reached only through their own connection, under its lock; request-scoped contexts are not replaced by Background for peer I/O. "
+         "Not decided: absence of misdelivery under all interleavings beyond these structural facts.",
+         "value-source classification of assignments, guard dominance, lock-span continuity, global-state writer enumeration, context provenance", "§3 C10"),
+ 'C11': ("Decides the session-table discipline: every use of a session obtained for a request-supplied id is guarded by lookupSession's ok; lookupSession's admit/reject table (unknown→404, owner mismatch/no token→403) via three-valued CFG evaluation; three writers of the table, all under h.mu, creation only on the header-less path with the owner captured first; ids minted/announced only on that path and on initialize; startPOST/defer endPOST pairing, refs/timer under timerMu, re-arm only at refs==0, timer callback only closes; DELETE closes synchronously, Close reaches the onClose decision on every path, failed-initialize cleanup; stateless default path never reads or sets the id and answers 405+Allow. "
+         "Not decided: timer races under a virtual clock; uniqueness of GetSessionID values (assumption).",
+         "guard dominance on uses of looked-up values, three-valued CFG evaluation of the lookup table, writer enumeration with lock checks, pairing rules", "§3 C11"),
 }
 
 REASONS = {}
